@@ -300,3 +300,18 @@ theorem foldl_extends (t : OpTable) : ∀ (h : List Ev) (r : Run),
     have a := step_extends t r e
     have b := foldl_extends t h (step t r e)
     exact ⟨a.1.trans b.1, a.2.trans b.2⟩
+
+/-- The bytes of the write events of a history, in order. -/
+def writesOf (h : List Ev) : List Nat := h.flatMap (fun e => match e with | .write bs => bs | .poll => [])
+
+theorem foldl_written (t : OpTable) : ∀ (h : List Ev) (r : Run),
+    (h.foldl (step t) r).written = r.written ++ writesOf h
+  | [], r => by simp [writesOf]
+  | e :: h, r => by
+    rw [List.foldl_cons, foldl_written t h (step t r e)]
+    cases e with
+    | write bs => simp [step, writesOf]
+    | poll =>
+      have : (step t r .poll).written = r.written := by
+        simp only [step]; split <;> rfl
+      rw [this]; simp [writesOf]
